@@ -26,7 +26,7 @@ func init() {
 		NumCases:    func(tier string) int { return pick(tier, 400, 15000) + 12 + pick(tier, 600, 20000) },
 		Run:         runC19,
 		Floor: func(tier string, st map[string]int64) string {
-			for _, k := range []string{"c19.key-only-reads", "c19.value-ranges", "c19.opens-checked", "c19.open-size-series", "op.Reopen", "evicted", "c19.sweep-ops", "c19.concurrent-executions", "c19.callback-configurations"} {
+			for _, k := range []string{"c19.key-only-reads", "c19.value-ranges", "c19.opens-checked", "c19.open-size-series", "op.Reopen", "evicted", "c19.sweep-ops", "c19.concurrent-executions", "c19.callback-configurations", "c19.long-value-warm-up-cases"} {
 				if st[k] == 0 {
 					return "no " + k + " observed"
 				}
@@ -88,6 +88,16 @@ func runC19(ctx *Ctx, idx int) Result {
 				}
 			}
 		}
+		warm := 0
+		if idx%8 == 5 {
+			// a collection for a long run of with-value loads right before the key-only sweep (a store
+			// that has served hundreds of value requests must still not read values for key-only ones)
+			e.SetCollection("warm-up", "")
+			warm = r.Range(130, 300)
+			for i := 0; i < warm && !e.Failed(); i++ {
+				e.SetItem("warm-up", []byte(fmt.Sprintf("w%04d", i)), r.Bytes(r.Range(200, 1200)), int32(r.Intn(1<<30)), false)
+			}
+		}
 		e.Flush()
 		// a snapshot that has served as the source of a copy, used for key-only reads afterwards
 		snapIdx := -1
@@ -115,6 +125,14 @@ func runC19(ctx *Ctx, idx int) Result {
 			for _, n := range e.M.Live.Names() {
 				e.Evict(n, 8)
 			}
+		}
+		if warm > 0 && !e.Failed() {
+			for i := 0; i < warm && !e.Failed(); i++ {
+				e.Get(-1, "warm-up", []byte(fmt.Sprintf("w%04d", i)))
+			}
+			e.Visit(-1, "warm-up", driver.VAsc, nil, true, -1)
+			ctx.Stats["c19.long-value-warm-up-cases"]++
+			ctx.Stats["c19.value-loads-before-sweep"] += int64(2 * warm)
 		}
 		for _, n := range e.M.Live.Names() {
 			m := e.M.Live.Colls[n]
